@@ -28,7 +28,17 @@ cdef inline double SQR(double a) noexcept nogil:
     return a*a
 
 cdef inline double hypot2(double x, double y) noexcept nogil:
-    return sqrt(x*x+y*y)
+    # sqrt(x*x + y*y) without intermediate overflow or underflow.
+    cdef double r
+    if fabs(x) > fabs(y):
+        r = y/x
+        r = fabs(x)*sqrt(1 + r*r)
+    elif y != 0:
+        r = x/y
+        r = fabs(y)*sqrt(1 + r*r)
+    else:
+        r = 0.0
+    return r
 
 
 cdef double det(double [3][3]a) noexcept nogil:
